@@ -23,16 +23,8 @@ def slice_indexes(op, f):
 
 
 def model_ops(ops, f):
-    """the model's instruction list: a Python slice is the selection of the frames `slice.indices` names"""
-    out = []
-    for o in ops:
-        if o["k"] == "slice":
-            ixs = slice_indexes(o, f); out.append({"k": "select_frames", "ixs": ixs}); f = len(ixs)
-        else:
-            out.append(o)
-            if o["k"] == "select_frames": f = len(o["ixs"])
-            elif o["k"] == "slice_step": f = (f + o["by"] - 1) // o["by"]
-    return out
+    """the model's instruction list (frame slices are modelled natively: Model/PoseOps.lean `pySliceIndexes` is Python's `slice.indices` for positive steps)"""
+    return ops
 
 
 def gen_case(rng):
